@@ -578,3 +578,47 @@ def continuous_cases(rng, n):
         cs["continuous"] = cont
         out.append(cs)
     return out
+
+
+# ---------------------------------------------------------------------------------------------
+# C29: designs inside SMGen's supported fragment (no unsupported constraints, single crossing,
+# WithinTrial / Transition derivations with arbitrary - in particular direction-sensitive - tables)
+
+def smgen_cases(rng, n):
+    out = []
+    # systematic: a direction-sensitive transition (clockwise / counter / stay over 3 colours), crossed
+    F = [basic("color", 3), basic("size", 2)]
+    tab = [[], [], []]
+    for a in (1, 2, 3):
+        for b in (1, 2, 3):
+            tab[0 if b == a % 3 + 1 else (1 if a == b % 3 + 1 else 2)].append([a, b])
+    F.append(derived(F, "dir", [1], "transition", nl=3, table=tab))
+    out.append(case(F, cross([1, 2, 3], [2, 3]), "A", ["smgen", "asymmetric-transition", "crossed"], "smg-dir-crossed"))
+    out.append(case(F, cross([1, 2, 3], [1, 3]), "A", ["smgen", "asymmetric-transition", "crossed"], "smg-dir-crossed-src"))
+    out.append(case(F, cross([1, 2, 3], [1, 2]), "A", ["smgen", "asymmetric-transition"], "smg-dir-uncrossed"))
+    tries = 0
+    while len(out) < n + 3 and tries < n * 30:
+        tries += 1
+        F = [basic("a", rng.choice([2, 3])), basic("b", 2)]
+        if rng.random() < 0.5:
+            F.append(basic("c", 2))
+        nb = len(F)
+        F.append(derived(F, "w", sorted(rng.sample(range(1, nb + 1), 2)), "within", nl=2, rng=rng))
+        F.append(derived(F, "t", [rng.randrange(1, nb + 1)], "transition", nl=rng.choice([2, 2, 3]), rng=rng))
+        ids = list(range(1, len(F) + 1))
+        X = sorted(rng.sample(ids, rng.choice([1, 2])))
+        srcs = set()
+        ok = True
+        for i in X:
+            s = set(F[i - 1].get("deps", [i]))
+            if s & srcs:
+                ok = False
+            srcs |= s
+        if not ok:
+            continue
+        if rng.random() < 0.3:
+            i = rng.choice([i for i in ids if F[i - 1]["kind"] == "b"])
+            F[i - 1]["w"][0] = 2
+        cons = [K("MinimumTrials", k=rng.randrange(3, 9))] if rng.random() < 0.3 else []
+        out.append(case(F, cross(ids, X, cons), "A", ["smgen", "random"], "smg-%d" % len(out)))
+    return out
